@@ -31,9 +31,18 @@ Dist2(p, q)   == (p[1] - q[1]) * (p[1] - q[1]) + (p[2] - q[2]) * (p[2] - q[2])
 Dist1(p, q)   == Abs(p[1] - q[1]) + Abs(p[2] - q[2])
 DistInf(p, q) == Max2(Abs(p[1] - q[1]), Abs(p[2] - q[2]))
 \* strictly farther than thr in norm ord (ord 2 decided on squares: exact in integers)
+\* ord codes: 1, 2, 3 = infinity, 4 = the 3-norm, 5 = the 4-norm (decided on cubes / fourth powers: exact in integers)
+Pow3(x) == x * x * x
+Pow4(x) == x * x * x * x
+Dist3c(p, q) == Pow3(Abs(p[1] - q[1])) + Pow3(Abs(p[2] - q[2]))
+Dist4q(p, q) == Pow4(Abs(p[1] - q[1])) + Pow4(Abs(p[2] - q[2]))
 Farther(p, q, thr, ord) == CASE ord = 1 -> Dist1(p, q) > thr
                              [] ord = 2 -> Dist2(p, q) > thr * thr
+                             [] ord = 4 -> Dist3c(p, q) > Pow3(thr)
+                             [] ord = 5 -> Dist4q(p, q) > Pow4(thr)
                              [] OTHER   -> DistInf(p, q) > thr
+\* the p-th root of the implementation is inexact: rows in which a distance equals the threshold exactly are not compared
+OnThreshold(p, q, thr, ord) == (ord = 4 /\ Dist3c(p, q) = Pow3(thr)) \/ (ord = 5 /\ Dist4q(p, q) = Pow4(thr))
 
 -----------------------------------------------------------------------------
 (* The filters.  C: set of candidate records still alive.                  *)
@@ -126,7 +135,7 @@ Fam_SkipSame3 ==
 Sibs == {S \in SUBSET [pos : Points, active : BOOLEAN] : Cardinality(S) <= 2}
 Fam_Far ==
     { [fam |-> "far", thr |-> thr, ord |-> ord, sibs |-> S, cands |-> PosCands("A", ps)] :
-        thr \in {3, 5, 10}, ord \in {1, 2, 3}, S \in Sibs, ps \in {X \in SUBSET Points : Cardinality(X) \in 1..2} }
+        thr \in {3, 5, 9, 10}, ord \in {1, 2, 3, 4, 5}, S \in Sibs, ps \in {X \in SUBSET Points : Cardinality(X) \in 1..2} }
 Fam_NBCFar ==
     { [fam |-> "nbcfar", factor |-> f, mean |-> m, only |-> o, sibs |-> S, cands |-> PosCands("A", ps)] :
         f \in {1, 2}, m \in {0, 5}, o \in BOOLEAN, S \in Sibs, ps \in {X \in SUBSET Points : Cardinality(X) \in 1..2} }
@@ -142,6 +151,7 @@ Row_SkipSame3(c)  == [fam |-> c.fam, seedA |-> c.seedA, seedB |-> c.seedB, cands
                       seeds |-> SetToSeq({x \in c.seeds : x.par # "root"}),
                       ok |-> SetToSeq({SetToSeq(Ids(K)) : K \in Outs_SkipSameL(c.cands, c.seeds)})]
 Row_Far(c)        == [fam |-> c.fam, thr |-> c.thr, ord |-> c.ord, sibs |-> SetToSeq(c.sibs), cands |-> SetToSeq(c.cands),
+                      onthr |-> \E x \in c.cands : \E sb \in c.sibs : OnThreshold(x.pos, sb.pos, c.thr, c.ord),
                       ok |-> <<SetToSeq(Ids(Out_FarEnough(c.cands, c.sibs, c.thr, c.ord)))>>]
 Row_NBCFar(c)     == [fam |-> c.fam, factor |-> c.factor, mean |-> c.mean, only |-> c.only, sibs |-> SetToSeq(c.sibs),
                       cands |-> SetToSeq(c.cands),
